@@ -156,6 +156,8 @@ func ForkScenarios() []Scenario {
 		{Name: "fork-two-clients-empty-config", Height: 1, Preload: pre(10), Clients: 2, Fork: true, Threads: [][]Lookup{{L(0, 0, false)}, {L(1, 0, false)}}},
 		{Name: "fork-one-client-two-threads", Height: 2, Preload: pre(10, 11, 12, 13), Stored: true, Clients: 1, Fork: true, ByThread: true, Threads: [][]Lookup{{L(0, 0, false)}, {L(0, 1, false), L(0, 10, false)}}},
 		{Name: "fork-two-clients-second-lookup-same-head", Height: 2, Preload: pre(10, 11), Stored: true, Clients: 2, Fork: true, Threads: [][]Lookup{{L(0, 0, false)}, {L(1, 1, false), L(1, 10, false)}}},
+		{Name: "fork-two-clients-two-new-records-on-fork", Height: 2, Preload: pre(10, 11), Stored: true, Clients: 2, Fork: true, Threads: [][]Lookup{{L(0, 0, false)}, {L(1, 1, false), L(1, 3, false)}}},
+		{Name: "fork-two-clients-two-new-records-each-h1", Height: 1, Preload: pre(10), Stored: true, Clients: 2, Fork: true, Threads: [][]Lookup{{L(0, 0, false), L(0, 4, false)}, {L(1, 1, false), L(1, 3, false)}}},
 		{Name: "fork-two-clients-second-lookup-fork-only-record", Height: 1, Preload: pre(10), Stored: true, Clients: 2, Fork: true, Threads: [][]Lookup{{L(0, 0, false)}, {L(1, 1, false), {1, "fork.example/only", "v1.0.0"}}}},
 		{Name: "same-log-different-sizes", Height: 2, Preload: pre(10, 11, 12), Stored: true, Clients: 2, Threads: [][]Lookup{{L(0, 0, false), L(0, 1, false)}, {L(1, 3, false)}}},
 	}
